@@ -311,7 +311,8 @@ func parsedID(v ssa.Value) bool {
 		return false
 	}
 	f := call.Call.StaticCallee()
-	return f != nil && f.Name() == "Uint16"
+	// (MQTT integers are big-endian: the little-endian sibling parses another identifier)
+	return f != nil && f.Name() == "Uint16" && strings.Contains(stdName(f), "bigEndian")
 }
 
 func either(cm cmp, f func(cmp) bool) bool { return f(cm) || f(cm.swapped()) }
